@@ -175,7 +175,10 @@ def params_program_from_walk(walk, salt=0):
 
 # ------------------------------------------------------------------------------------------------ C15
 class Boom(Exception):
-    pass
+    """The fixture's own error: like many user exceptions it takes exactly one argument (and pickles fine as it is)."""
+
+    def __init__(self, where):
+        super().__init__(where)
 
 
 FAILSTOP = -1
@@ -202,7 +205,7 @@ def _raise_failure(model):
         other.systems.execute_systems(throw_error=True)
     elif FAILKIND == "stopiter":
         next(x for x in model.environment if x.id == "nobody")       # the usual idiom; nothing matches
-    raise Boom()
+    raise Boom("fixture")
 
 
 class Stopper(System):
@@ -235,18 +238,18 @@ class Rec(Collector):
         self.records.append([self.sig, self.model.systems.timestep])
 
 
-LABELS = ["dry", "ab", "", "x", "wet season"]
+LABELS = ["dry", "ab", "", "x", "wet season", None]      # the position of a label in this list is part of a run's signature
 
 
 class BatchModel(Model):
     def __init__(self, stop=3, cstart=0, cfreq=1, d=0, burn=-1, label="dry"):
         super().__init__()
         if label not in LABELS:          # a text parameter must arrive as the very value that was declared
-            raise Boom()
+            raise Boom("fixture")
         fail = stop == FAILSTOP
         if fail and d % 2 == 1:
             _raise_failure(self)
-        sig = 1000 * stop + 100 * cstart + 10 * cfreq + d
+        sig = 10000 * LABELS.index(label) + 1000 * stop + 100 * cstart + 10 * cfreq + d
         self.systems.add_system(Stopper(self, stop, d, fail, burn, (sig, cfreq)))
         self.systems.add_system(Rec("c1", self, sig, cstart, cfreq))
         self.systems.add_system(Rec("c2", self, sig, cstart, cfreq + 1))
@@ -315,7 +318,7 @@ def run_batch(prog):
             exc = e
         finally:
             FAILSTOP = -1
-        events.append({"op": "batch_run", "grid": [[n, list(v)] for n, v in grid], "reps": reps, "limit": limit, "two": two is True or two == 1 or two == "tuple2",
+        events.append({"op": "batch_run", "grid": [[n, [("None" if x is None else x) for x in v]] for n, v in grid], "reps": reps, "limit": limit, "two": two is True or two == 1 or two == "tuple2",
                        "sel": sel, "shapes": shapes, "procs": procs, "failstop": failstop, "failname": FAILNAMES[failkind], "out": outcome(exc), "res": res})
     return events
 
@@ -362,21 +365,27 @@ def empty_batch_programs(procs_choices):
 
 
 def reused_list_programs(rng, procs_choices, n):
-    """2-4 batch runs on ONE ParameterList; parameters are added / removed between the runs (the values of a name never change)."""
-    vals = {"stop": [1, 3], "cstart": [0, 1], "cfreq": [1, 2], "d": [0, 2]}
+    """2-4 batch runs on ONE ParameterList; parameters are added / removed between the runs.  While a name stays declared its
+    values stay; a name that was removed may come back with other values (a grid refined between two runs)."""
+    vals0 = {"stop": [1, 3], "cstart": [0, 1], "cfreq": [1, 2], "d": [0, 2]}
+    alt = {"stop": [2, 4, 0], "cstart": [2], "cfreq": [2, 1], "d": [4]}
     out = []
     for _ in range(n):
+        vals = {k: list(v) for k, v in vals0.items()}
         names = rng.sample(sorted(vals), rng.randint(1, 3))
         prog = []
         for _ in range(rng.randint(2, 4)):
-            prog.append(["batch_run", [[x, vals[x]] for x in names], rng.choice([1, 2]), rng.choice([2, 4, BIG]), False,
+            prog.append(["batch_run", [[x, list(vals[x])] for x in names], rng.choice([1, 2]), rng.choice([2, 4, BIG]), False,
                          rng.choice(procs_choices), -1])
             if rng.random() < 0.6 and len(names) > 1:
                 names = [x for x in names if x != rng.choice(names)]
             else:
                 extra = [x for x in sorted(vals) if x not in names]
                 if extra:
-                    names = names + [rng.choice(extra)]
+                    x = rng.choice(extra)
+                    if rng.random() < 0.5:
+                        vals[x] = list(alt[x])          # comes back with other values
+                    names = names + [x]
         out.append(prog)
     return out
 
@@ -459,6 +468,13 @@ def run_search(prog):
                 # several searches of one program re-use ONE ParameterList object
                 if shared is None:
                     shared = ParameterList({nm: list(v) for nm, v in grid})
+                    shared_vals = {nm: list(v) for nm, v in grid}
+                for nm, v in grid:
+                    if shared_vals.get(nm) != list(v):
+                        # the grid is refined between two searches: the parameter is removed and declared again with other values
+                        shared.remove_parameter(nm)
+                        shared.add_parameter(nm, list(v))
+                        shared_vals[nm] = list(v)
                 params = shared
             else:
                 params = {nm: list(v) for nm, v in grid}
@@ -512,7 +528,9 @@ def repeated_search_programs(tables, rng, n):
         nc = rng.choice([2, 3])
         g = [["x", list(range(nc))]]
         prog = []
-        for _ in range(rng.choice([2, 3])):
+        for k in range(rng.choice([2, 3])):
+            if k and rng.random() < 0.5:
+                g = [["x", [v + 1 for v in g[0][1]]]]          # the grid is shifted (same number of points)
             reps = rng.choice([1, 2])
             t = [[rng.choice([-3, -1, 0, 0, 2, 5]) for _ in range(reps)] for _ in range(nc)]
             mode = rng.choice([m for m in sorted(MODES) if reps > 1 or "VARIANCE" not in m])
